@@ -7,6 +7,7 @@ def run(ctx):
     core.coq_prove(ctx, "C04")
     if ctx.tier == "thorough":
         core.coq_thorough_audit(ctx, "C04")
+    __import__("solverify_common").run(ctx, "C04")   # X12: Messages.sol parseVM / verifySignatures / verifyVM translated in full vs the node, on real signatures
     rc, out, trace = core.harness_pkg(ctx, "vaa", "^TestVerifC04$")
     rows = core.read_jsonl(trace)
     if rc != 0 or not rows:
